@@ -28,7 +28,7 @@ ASSUMPTIONS = ["names are non-empty, distinct and contain no parentheses (the di
                "tolerance 4e-5*(1+|V|) between the two solves"]
 
 POOL_A = ["1", "11", "111", "0", "10", "01", "2", "12", "a", "aa", "a_", "_a", "a a", "ab", "b", "x__y", "y", "x",
-          "s_internal_n0", "n0", "n1", "asset", "1_internal_1"]
+          "s_internal_n0", "n0", "n1", "asset", "1_internal_1", "slp_step"]
 POOL_N = ["1", "11", "0", "10", "n", "nn", "n_", "a", "aa", "1_internal_1", "a_internal_n", "node 1", "x"]
 CLASSES = ["simple", "simple", "contract", "transport", "storage", "storage", "multi", "orderbook", "scaled",
            "structured", "structured"]
@@ -86,8 +86,111 @@ def _strategy(draw):
     return spec
 
 
+@st.composite
+def _linked(draw):
+    """a LinkedAsset (documented: asset1 may only run `time_back` after asset2 is on): two plants and an unrelated
+    contract with its own window inside the wrapped portfolio; the order of the wrapped assets is permuted, names
+    of inner assets, linked asset and node are renamed"""
+    T = draw(st.integers(4, 8))
+    g = {"start": draw(st.sampled_from(["2021-01-30 00:00", "2021-06-15 06:00"])), "T": T, "freq": "h", "mtu": "h",
+         "tz": draw(st.sampled_from([None, "UTC", "CET"]))}
+    def plant(name):
+        mx = draw(st.sampled_from([2.0, 3.0, 4.0]))
+        return {"type": "plant", "name": name, "nodes": ["n0"], "price": draw(st.sampled_from(["p0", "p1"])),
+                "min_cap": mx * draw(st.sampled_from([0.25, 0.5])), "max_cap": mx, "extra_costs": 0.0, "wacc": 0.0,
+                "start_costs": draw(st.sampled_from([0.0, 1.0, 4.0])), "running_costs": draw(st.sampled_from([0.0, 0.5])),
+                "min_runtime": draw(st.sampled_from([0, 0, 1.5]))}
+    inner = [plant("lead"), plant("follow")]
+    k0 = draw(st.integers(0, T - 2))
+    inner.append({"type": "simple", "name": "side", "nodes": ["n0"], "price": "p1", "min_cap": -1.0, "max_cap": 1.0,
+                  "extra_costs": 0.0, "wacc": 0.0, "start": k0, "end": draw(st.integers(k0 + 1, T - 1))})
+    if draw(st.booleans()):
+        inner.append({"type": "simple", "name": "side2", "nodes": ["n0"], "price": "p0", "min_cap": 0.0, "max_cap": 0.5,
+                      "extra_costs": 0.0, "wacc": 0.0})
+    la = {"type": "linked", "name": "L", "nodes": ["n0"], "assets": inner, "wacc": 0.0,
+          "asset1_variable": ["follow", "disp", "n0"], "asset2_variable": ["lead", "bool_on", None],
+          "time_back": draw(st.sampled_from([1, 2])), "time_forward": draw(st.sampled_from([0, 0, 1])),
+          "asset2_time_already_running": draw(st.sampled_from([0, 0, 1]))}
+    prices = {"p0": draw(gen.price_series(T)), "p1": draw(gen.price_series(T)), "psell": draw(gen.price_series(T)),
+              "pbuy": [24.0] * T}
+    assets = [la,
+              {"type": "simple", "name": "sell", "nodes": ["n0"], "price": "psell", "min_cap": -16.0, "max_cap": 0.0, "extra_costs": 0.0, "wacc": 0.0},
+              {"type": "simple", "name": "buy", "nodes": ["n0"], "price": "pbuy", "min_cap": 0.0, "max_cap": 16.0, "extra_costs": 0.0, "wacc": 0.0}]
+    perm = list(draw(st.permutations(list(range(len(inner))))))
+    names = ["lead", "follow", "side", "side2", "L"]
+    amap = {}
+    if draw(st.booleans()):
+        new = draw(st.lists(st.sampled_from(POOL_A), min_size=len(names), max_size=len(names), unique=True))
+        amap = dict(zip(names, new))
+    return {"kind": "linked", "grid": g, "prices": prices, "assets": assets,
+            "rename": {"assets": amap, "nodes": {}, "perm": [0, 1, 2], "inner": {"L": perm}}}
+
+
 def strategy(tier):
-    return _strategy()
+    return st.one_of(_strategy(), _strategy(), _strategy(), _strategy(), _strategy(), _linked())
+
+
+def check_linked(spec):
+    out = Outcome()
+    rn = spec["rename"]
+    s1 = {k: v for k, v in copy.deepcopy(spec).items() if k not in ("rename", "kind")}
+    s2 = copy.deepcopy(s1)
+    la = s2["assets"][0]
+    la["assets"] = [la["assets"][i] for i in rn["inner"]["L"]]
+    am = rn["assets"]
+    for x in la["assets"]:
+        x["name"] = am.get(x["name"], x["name"])
+    la["name"] = am.get(la["name"], la["name"])
+    la["asset1_variable"][0] = am.get(la["asset1_variable"][0], la["asset1_variable"][0])
+    la["asset2_variable"][0] = am.get(la["asset2_variable"][0], la["asset2_variable"][0])
+    perm = rn["inner"]["L"]
+    out.label("linked", "inner_permuted" if perm != sorted(perm) else "same_order", "renamed" if am else "same_names")
+    r1 = obs.Run(s1)
+    if is_err(r1.op):
+        return out.fail("set-up of a linked asset raises " + r1.op.short())
+    r2 = obs.Run(s2)
+    if is_err(r2.op):
+        return out.fail("after renaming/permuting the wrapped assets set-up raises " + r2.op.short())
+    res1, res2 = r1.optimize(), r2.optimize()
+    if is_err(res1) or is_err(res2):
+        return out.drop("optimize_error")
+    if isinstance(res1, str) or isinstance(res2, str):
+        if isinstance(res1, str) != isinstance(res2, str) and "inaccurate" not in (res1, res2):
+            out.fail("original: %s, renamed/permuted: %s" % (res1 if isinstance(res1, str) else "optimal",
+                                                           res2 if isinstance(res2, str) else "optimal"))
+        return out if out.violations else out.drop("no_solution")
+    V1, V2 = float(res1.value), float(res2.value)
+    if abs(V1 - V2) > 2 * core.tol_val(V1, True):
+        out.fail("linked asset: optimal value %.9g becomes %.9g after permuting the wrapped assets to %s / renaming %s"
+                 % (V1, V2, perm, am))
+    # the link itself: 'follow' is off unless 'lead' has been on for time_back steps (checked on both runs)
+    for r, res, s in ((r1, res1, s1), (r2, res2, s2)):
+        la_ = s["assets"][0]
+        mp = r.op.mapping
+        x = np.asarray(res.x, float)
+        T = s["grid"]["T"]
+        def series(var, inner_name):
+            m = mp[(mp["asset"] == la_["name"]) & (mp["var_name"] == var + "__" + inner_name)]
+            m = m[~m.index.duplicated(keep="first")]
+            v = np.full(T, np.nan)
+            for i, t in zip(m.index.values, m["time_step"].values):
+                v[int(t)] = x[int(i)]
+            return v
+        f = series("disp", la_["asset1_variable"][0])
+        on = series("bool_on", la_["asset2_variable"][0])
+        if np.isnan(f).any() or np.isnan(on).any():
+            out.fail("linked asset: variables of the linked pair missing in the mapping")
+            continue
+        tb, tf, tar = int(la_["time_back"]), int(la_["time_forward"]), int(la_.get("asset2_time_already_running", 0))
+        for t in range(T):
+            if f[t] <= 1e-6:
+                continue
+            for i in range(-tb, tf + 1):
+                # (the documented meaning of the link is not part of C09's statement: recorded as a label only)
+                if i + t < -tar or (0 <= i + t < T and on[i + t] < 0.5):
+                    out.label("link_not_enforced")
+    out.nontrivial = perm != sorted(perm) or bool(am)
+    return out
 
 
 def renamed(spec):
@@ -114,6 +217,8 @@ def renamed(spec):
 
 
 def check(spec):
+    if spec.get("kind") == "linked":
+        return check_linked(spec)
     out = Outcome()
     rn = spec["rename"]
     s1 = copy.deepcopy(spec)
